@@ -261,27 +261,32 @@ def blockSize (st : St) (b : Nat) : Nat := (st.blocks[b]!).vars.size
 
 /-! ### `Blocks::mergeLeft` -/
 
+/-- first half of the body of the `while` loop of `Blocks::mergeLeft` (heap side):
+    `r->deleteMinInConstraint(); l = c->left->block; if (l->in==nullptr) l->setUpInConstraints(); … blockTimeCtr++;` -/
+def mergeLeftPre (s : SSt) (r c : Nat) : HS :=
+  let st := s.st
+  let hs := deleteMinIn st s.hs r
+  let l := blkOf st (st.cons[c]!).l
+  let hs := if (hs.inH[l]!).isNone then setUpIn st hs l else hs
+  let swap := blockSize st r < blockSize st l
+  { hs with ctr := hs.ctr + 1,
+            nMergeL := hs.nMergeL + (if swap then 0 else 1),
+            nMergeLSwap := hs.nMergeLSwap + (if swap then 1 else 0) }
+
 /-- body of the `while` loop of `Blocks::mergeLeft` for the violated constraint `c` at the root of
     `r`'s in-heap; returns the surviving block -/
 def mergeLeftStep (s : SSt) (r c : Nat) : SSt × Nat :=
   let st := s.st
-  let hs := deleteMinIn st s.hs r
   let con := st.cons[c]!
   let l := blkOf st con.l
-  let hs := if (hs.inH[l]!).isNone then setUpIn st hs l else hs
   let dist := (st.vars[con.r]!).offset - (st.vars[con.l]!).offset - con.gap
   let swap := blockSize st r < blockSize st l
   let r' := if swap then l else r
   let l' := if swap then r else l
   let dist' := if swap then -dist else dist
-  let hs := { hs with ctr := hs.ctr + 1,
-                      nMergeL := hs.nMergeL + (if swap then 0 else 1),
-                      nMergeLSwap := hs.nMergeLSwap + (if swap then 1 else 0) }
-  let st := mergeDir st c r' l' dist'
-  let hs := hs.checkExact st r'
-  let hs := mergeIn st hs r' l'
-  let hs := { hs with bts := hs.bts.set! r' hs.ctr }
-  ({ st := st, hs := hs }, r')
+  let st' := mergeDir st c r' l' dist'
+  let hs := mergeIn st' ((mergeLeftPre s r c).checkExact st' r') r' l'
+  ({ st := st', hs := { hs with bts := hs.bts.set! r' hs.ctr } }, r')
 
 def mergeLeftLoop : Nat → SSt → Nat → SSt
   | 0, s, _ => { s with hs := s.hs.out }
@@ -311,23 +316,29 @@ def mergeLeft (s : SSt) (r : Nat) : SSt :=
 
 /-! ### `Blocks::mergeRight` -/
 
-def mergeRightStep (s : SSt) (l c : Nat) : SSt × Nat :=
+/-- first half of the body of the `while` loop of `Blocks::mergeRight` (heap side):
+    `l->deleteMinOutConstraint(); r = c->right->block; r->setUpOutConstraints();` -/
+def mergeRightPre (s : SSt) (l c : Nat) : HS :=
   let st := s.st
   let hs := deleteMinOut st s.hs l
+  let r := blkOf st (st.cons[c]!).r
+  let hs := setUpOut st hs r
+  let swap := blockSize st l > blockSize st r
+  { hs with nMergeR := hs.nMergeR + (if swap then 0 else 1),
+            nMergeRSwap := hs.nMergeRSwap + (if swap then 1 else 0) }
+
+def mergeRightStep (s : SSt) (l c : Nat) : SSt × Nat :=
+  let st := s.st
   let con := st.cons[c]!
   let r := blkOf st con.r
-  let hs := setUpOut st hs r
   let dist := (st.vars[con.l]!).offset + con.gap - (st.vars[con.r]!).offset
   let swap := blockSize st l > blockSize st r
   let l' := if swap then r else l
   let r' := if swap then l else r
   let dist' := if swap then -dist else dist
-  let hs := { hs with nMergeR := hs.nMergeR + (if swap then 0 else 1),
-                      nMergeRSwap := hs.nMergeRSwap + (if swap then 1 else 0) }
-  let st := mergeDir st c l' r' dist'
-  let hs := hs.checkExact st l'
-  let hs := mergeOut st hs l' r'
-  ({ st := st, hs := hs }, l')
+  let st' := mergeDir st c l' r' dist'
+  let hs := mergeOut st' ((mergeRightPre s l c).checkExact st' l') l' r'
+  ({ st := st', hs := hs }, l')
 
 def mergeRightLoop : Nat → SSt → Nat → SSt
   | 0, s, _ => { s with hs := s.hs.out }
@@ -417,9 +428,13 @@ def SSt.satisfy (s : SSt) : SSt × Outcome :=
 def setPosn (st : St) (b : Nat) (p : Rat) : St :=
   { st with blocks := st.blocks.set! b { st.blocks[b]! with posn := p } }
 
-def HS.newBlocks (hs : HS) : HS :=
-  { hs with inH := (hs.inH.push none).push none, outH := (hs.outH.push none).push none,
-            bts := (hs.bts.push 0).push 0 }
+/-- `new Block(blocks)` twice: the two fresh blocks `lid`, `rid` (= the next two block ids) get null heaps
+    and time stamp 0.  The explicit `set!`s are no-ops when the heap arrays are as long as the block array
+    (always, in a run from `SSt.init`); they make "a fresh block has no heap" independent of that. -/
+def HS.newBlocks (hs : HS) (lid rid : Nat) : HS :=
+  { hs with inH := (((hs.inH.push none).push none).set! lid none).set! rid none,
+            outH := (((hs.outH.push none).push none).set! lid none).set! rid none,
+            bts := (((hs.bts.push 0).push 0).set! lid 0).set! rid 0 }
 
 /-- first part of `Blocks::split(b, l, r, c)`: `b->split(l,r,c); m_blocks.push_back(l); m_blocks.push_back(r);
     r->posn = b->posn;` — returns the state and the new block `l` -/
@@ -427,7 +442,7 @@ def splitPre (s : SSt) (b c : Nat) : SSt × Nat :=
   let oldPosn := (s.st.blocks[b]!).posn
   let q := s.st.split b c
   let st := setPosn (q.1.insertBlocks q.2.1 q.2.2) q.2.2 oldPosn
-  let hs := (s.hs.newBlocks.checkExact st q.2.1)
+  let hs := ((s.hs.newBlocks q.2.1 q.2.2).checkExact st q.2.1)
   ({ st := st, hs := { hs with nSplit := hs.nSplit + 1 } }, q.2.1)
 
 /-- `r = c->right->block; r->updateWeightedPosition();` — returns the state and `r` -/
